@@ -223,10 +223,31 @@ BUILT = {
              'the menu is sound (points on the surface, normals parallel to the gradient), unit lengths, the mirror law, the vector form of Snell\'s law and '
              'the plane of incidence, rigidity and self-inverse of the frame transformation, and a second plane-mirror surface; the pinned gradient-as-normal '
              'variant must violate Snell off axis. Every state is replayed into Surface.plane/sphere/conic + raytrace (one- and two-surface prescriptions) '
-             'and transform_to_local/global_coords and compared with the exact hit point and direction cosines; make_rotation_matrix frames are checked for rigidity.',
-        note='Trusted: TLC, numpy. Bounded: 11 hit geometries x 4 incidences x 9 bends x 3 (4) frames; Q-type and off-axis-conic surfaces are outside the rational '
-             'family (their sag/derivatives are bound through C07/C09). Known finding: rays so steep that they cross the vertex plane outside the sag domain return NaN.',
+             'and transform_to_local/global_coords and compared with the exact hit point and direction cosines; make_rotation_matrix frames are checked for rigidity. '
+             'The spec also carries the running refractive index of a prescription (only refracting surfaces change it; three-surface glass prescription with '
+             'an evaluation plane inside the medium), off-axis sections of the same parent surface (replayed into Surface.off_axis_conic with dx and dy shifts) '
+             'and rays that meet the surface from the +z side.',
+        note='Trusted: TLC, numpy. Bounded: 11 hit geometries x 6 incidences x 9 bends x 3 (4) frames x 3 (5) off-axis shifts; Q-type surfaces are outside the rational '
+             'family (their sag/derivatives are bound through C07/C09). Known findings: rays so steep that they cross the vertex plane outside the sag domain return NaN; '
+             'the ray through the local origin of a dy-shifted off-axis conic gets the normal (0,0,1).',
         technique='TLA+ spec (RayTrace.tla: exact rational ray/surface geometry, Snell and mirror laws) checked by TLC; exact hit points and directions replayed into prysm.x.raytracing'),
+    'C18': dict(
+        spec='Aperture.tla, HexRing.tla, HexLib.tla, GridLib.tla',
+        text='HexLib.tla provides exact arithmetic in Z[sqrt 3] (sign by comparing a^2 with 3 b^2), hexagonal cube coordinates and the direction table of the '
+             'multiples of 30 degrees. HexRing.tla is prysm.segmented.hex_ring as a step machine (one action per loop iteration: Step, Rotate); TLC checks in every '
+             'state that recorded tiles are distinct, on the ring and chained, that the walk closes with 6k tiles and equals the closed form, and the id / '
+             'exclusion bookkeeping; a wrong-turn variant must violate. Aperture.tla gives every sample an exact three-valued class (in / out / tie) for hexagonal '
+             'segments (both orientations, windows, OPD accumulation), keystone segments with 2, 3, 4, 6, 12 segments per ring (annular sectors, gap strips, bounding-box '
+             'windows) and the mask primitives (circle, offset circle, annulus, rectangle and ellipse with Pythagorean rotations, regular polygons with 3, 4, 6, 12 sides, '
+             'spiders with 1-6 vanes). TLC checks: segment count under exclusion, windows contain their segments (the two pinned window computations must violate), no '
+             'sample in two segments, centres a pitch apart, area to within the boundary rasterisation, OPD confined and linear, the sectors of a ring partition its '
+             'annulus, every transmitting sample in exactly one segment, primitives monotone in their size and symmetric. Every state is replayed into '
+             'CompositeHexagonalAperture (segment_ids, all_centers, windows + local_masks, amp, prepare_opd_bases + compose_opd), CompositeKeystoneAperture and prysm.geometry; '
+             'every non-tie sample must agree.',
+        note='Trusted: TLC, numpy, scipy.spatial. Bounded: grids 14..25 per axis (odd, even, non-square), rings 1..2 (0..2), 4 exclusion sets, 4 (7) diameter/gap/sampling triples, '
+             '8 keystone ring layouts, about 100 primitive parameter sets; lengths integer multiples of a unit, angles multiples of 30 degrees or Pythagorean. Samples exactly on '
+             'a boundary are not compared.',
+        technique='TLA+ specs (HexRing.tla step machine; Aperture.tla exact Z[sqrt 3] membership, tiling laws) checked by TLC; every state replayed into prysm.segmented and prysm.geometry'),
 }
 
 NOT_BUILT_REASON = 'not built yet in this round (specification planned in DESIGN.md section 4; never decided by another technique)'
